@@ -1138,9 +1138,17 @@ def std(l, axis=None, ddof=0, **kw):
     _reject_nonfinite(v)
     if builtins.all(not isinstance(x, Sym) for x in v):
         return builtins.float(rnp.std([builtins.float(x) for x in v], ddof=ddof))
+    args = [z3.simplify(to_real(zterm(x)) if not isinstance(x, Sym) else to_real(x.t)) for x in v]
+    # np.std is a function: the same list (structurally) yields the same value
+    from .sym import shash
+    key = (tuple(shash(a) for a in args), ddof)
+    memo = ENG.path_cache.setdefault("std_by_args", {})
+    if key in memo:
+        return SNum(memo[key], "float64")
     s = z3.Real(ENG.fresh_name("std"))
     ENG.assume(s >= 0)
-    ENG.path_cache.setdefault("std", {})[str(s)] = ([to_real(zterm(x)) if not isinstance(x, Sym) else to_real(x.t) for x in v], ddof)
+    memo[key] = s
+    ENG.path_cache.setdefault("std", {})[str(s)] = (args, ddof)
     return SNum(s, "float64")
 
 
